@@ -559,6 +559,8 @@ func runCase(t *testing.T, prop string, c *Case, log []truth, mk func(f *fakeLog
 			}
 		}
 	}
+	persistCase(prop, c)
+	defer realTimeGuard(prop, c)()
 	var amu sync.Mutex
 	var outs []*outcome
 	var aborts []harness.Violation
@@ -680,7 +682,7 @@ func runCase(t *testing.T, prop string, c *Case, log []truth, mk func(f *fakeLog
 							grace.Stop()
 						case <-grace.C:
 							msg := fmt.Sprintf("c16: hang-after-cancel: call %d had not returned when the watchdog fired after %v of virtual time and still not one hour after its context was cancelled", i, limit)
-							reportHang(prop, c, msg)
+							reportHang(prop, c, "hang-after-cancel", msg)
 							panic(msg)
 						}
 					}
@@ -710,7 +712,7 @@ func runCase(t *testing.T, prop string, c *Case, log []truth, mk func(f *fakeLog
 // reportHang makes a run that cannot be unwound a first-class finding before the process dies: it writes
 // the case in the harness's replay format and prints the marker line the driver collects (during the
 // regress stage no case has been persisted by the harness yet).
-func reportHang(prop string, c *Case, msg string) {
+func reportHang(prop string, c any, sig, msg string) {
 	dir := os.Getenv("VERIF_OUT")
 	if dir == "" {
 		dir = os.TempDir()
@@ -718,10 +720,45 @@ func reportHang(prop string, c *Case, msg string) {
 	raw, _ := json.Marshal(c)
 	b, _ := json.MarshalIndent(map[string]any{
 		"property": "C16", "prop": prop, "seed": 0,
-		"violations": []harness.Violation{{Sig: "hang-after-cancel", Msg: msg}}, "case": json.RawMessage(raw),
+		"violations": []harness.Violation{{Sig: sig, Msg: msg}}, "case": json.RawMessage(raw),
 	}, "", " ")
 	path := filepath.Join(dir, "hang-"+prop+".json")
 	if os.WriteFile(path, b, 0o644) == nil {
 		fmt.Printf("\nVERIF-FAIL prop=%s file=%s\n", prop, path)
 	}
+}
+
+// persistCase writes the case that is about to run where the driver looks for "the case that was running
+// when the process died" (last-<shard>.json in the harness's replay format). The harness does the same for
+// generated cases of Crashy properties; this also covers the regress stage, in which a crash of the code
+// under test on another goroutine (the scanner's progress ticker, say) would otherwise be unattributable.
+func persistCase(prop string, c any) {
+	dir := os.Getenv("VERIF_OUT")
+	if dir == "" || os.Getenv("VERIF_REPLAY") != "" {
+		return
+	}
+	shard := os.Getenv("VERIF_SHARD")
+	if shard == "" {
+		shard = "0"
+	}
+	raw, _ := json.Marshal(c)
+	b, _ := json.MarshalIndent(map[string]any{"property": "C16", "prop": prop, "seed": 0, "case": json.RawMessage(raw)}, "", " ")
+	os.WriteFile(filepath.Join(dir, "last-"+shard+".json"), b, 0o644)
+}
+
+// realTimeGuard is the last line of defence against a case that neither returns nor lets virtual time
+// advance: goroutines of the bubble blocked on something that lives outside it (a package-level
+// semaphore, say) are not "durably blocked", so the virtual-time watchdog never fires and the process
+// would sit there until the driver's shard timeout (inconclusive). Cases take milliseconds to a few
+// seconds; after guardPatience of wall-clock time the case is reported (sig hang-no-progress) and the
+// process aborts - the same loud exit as hang-after-cancel. The guard judges nothing else.
+const guardPatience = 120 * time.Second
+
+func realTimeGuard(prop string, c any) (stop func()) {
+	tm := time.AfterFunc(guardPatience, func() {
+		msg := fmt.Sprintf("c16: hang-no-progress: the case had neither returned nor let virtual time advance after %v of real time (goroutines blocked outside the reach of the virtual clock, or spinning)", guardPatience)
+		reportHang(prop, c, "hang-no-progress", msg)
+		panic(msg)
+	})
+	return func() { tm.Stop() }
 }
